@@ -146,7 +146,7 @@ func runC35(c *Ctx) {
 		})
 	}
 
-	r3 := c.Rule("R3", "signature and exp are verified before claims are returned; Refresh rotates; RevokeToken removes both tokens", 8)
+	r3 := c.Rule("R3", "signature (as presented, against the canonical encoding of the expected MAC) and exp are verified before claims are returned; Refresh rotates; RevokeToken removes both tokens", 9)
 	{
 		f := w.Fn(pkg + ".parseAndVerifySignedAccessToken")
 		g := w.G(f)
@@ -156,6 +156,56 @@ func runC35(c *Ctx) {
 		eq := g.condNodes(func(e ast.Expr) bool { return w.mentionsCall(f, e, "crypto/hmac.Equal") })
 		c.Check(len(eq) == 1, r3, "verify: constant-time signature comparison", f.Decl.Pos(), "hmac.Equal", "signature no longer compared with hmac.Equal", nil)
 		c.Offences(g, g.notOnlyVia(eq, 1, success), r3, "verify: claims returned only when the signature matched", f.Decl.Pos(), "success only on hmac.Equal's true edge", "claims can be returned without a matching signature")
+		// the comparison is on the presented signature text itself: one operand is []byte(<part of the token>)
+		// with no call applied to it (decoding it first accepts every non-canonical spelling of the same bytes),
+		// the other is the canonical encoding of the computed MAC
+		if len(eq) == 1 {
+			defs := localDefs(f)
+			tokenP := f.Obj.Type().(*types.Signature).Params().At(0)
+			var call *ast.CallExpr
+			ast.Inspect(eq[0].Ast, func(x ast.Node) bool {
+				if ce, ok := x.(*ast.CallExpr); ok && call == nil {
+					if cs := w.resolveCall(f, ce); cs != nil && cs.Key == "crypto/hmac.Equal" {
+						call = ce
+					}
+				}
+				return true
+			})
+			okCmp := false
+			detail := "hmac.Equal call not found"
+			if call != nil && len(call.Args) == 2 {
+				// raw: a conversion []byte(x) where x flows from the token parameter through Split/index only
+				isRaw := func(e ast.Expr) bool {
+					ce, ok := ast.Unparen(e).(*ast.CallExpr)
+					if !ok || len(ce.Args) != 1 {
+						return false
+					}
+					if tv, isT := info.Types[ce.Fun]; !isT || !tv.IsType() {
+						return false
+					}
+					if !w.mentionsDeep(f, defs, ce.Args[0], tokenP) {
+						return false
+					}
+					// no call other than strings.Split between the parameter and the operand
+					return !w.mentionsDeep(f, defs, ce.Args[0], nil, pkg+".base64urlDecode", "encoding/base64.Encoding.DecodeString", "strings.TrimRight", "strings.TrimSpace", "strings.ToLower", "strings.Trim")
+				}
+				isExpected := func(e ast.Expr) bool {
+					return w.mentionsDeep(f, defs, e, nil, pkg+".base64urlEncode") && w.mentionsDeep(f, defs, e, nil, "hash.Hash.Sum") && !w.mentionsDeep(f, defs, e, tokenP)
+				}
+				okCmp = (isRaw(call.Args[0]) && isExpected(call.Args[1])) || (isRaw(call.Args[1]) && isExpected(call.Args[0]))
+				// accepted alternative: raw MAC bytes compared with a STRICT decoding of the presented text
+				isStrict := func(e ast.Expr) bool {
+					return w.mentionsDeep(f, defs, e, tokenP) && w.mentionsDeep(f, defs, e, nil, "encoding/base64.Encoding.Strict")
+				}
+				isSum := func(e ast.Expr) bool { return w.mentionsDeep(f, defs, e, nil, "hash.Hash.Sum") && !w.mentionsDeep(f, defs, e, tokenP) }
+				if (isStrict(call.Args[0]) && isSum(call.Args[1])) || (isStrict(call.Args[1]) && isSum(call.Args[0])) {
+					okCmp = true
+				}
+				detail = fmt.Sprintf("operands are %s and %s", types.ExprString(call.Args[0]), types.ExprString(call.Args[1]))
+			}
+			c.Check(okCmp, r3, "verify: the presented signature text is compared with the canonical encoding of the expected MAC", eq[0].Ast.Pos(), "[]byte(signature part) vs base64urlEncode(mac.Sum(nil))",
+				detail+": the presented signature is transformed (decoded / trimmed) before the comparison, so every other spelling that decodes to the same bytes - a different last character, trailing padding, line breaks - is accepted although the server never issued that token", nil)
+		}
 		// expected signature = HMAC(secret, header.payload)
 		okMac := w.Reaches(f, keyIn(pkg+".tokenSigningSecret")) && w.Reaches(f, keyIn("crypto/hmac.New"))
 		c.Check(okMac, r3, "verify: MAC keyed with the server secret", f.Decl.Pos(), "hmac.New(sha256.New, tokenSigningSecret())", "MAC no longer keyed with the server secret", nil)
